@@ -880,7 +880,7 @@ class Origin:
         return "Origin(%s %s %s %s)" % (self.kind, self.data if self.kind != "call" else callee_name(self.data), self.fields, self.site.loc() if self.site else "")
 
 
-def origins(body, place_or_op, transparent=TRANSPARENT_CALLS, max_steps=2000):
+def origins(body, place_or_op, transparent=TRANSPARENT_CALLS, max_steps=2000, def_filter=None):
     """set of Origins a place/operand may derive its value from (peeling copies, refs, casts,
     derefs, field projections and `transparent` calls' first argument)"""
     out = {}
@@ -925,6 +925,8 @@ def origins(body, place_or_op, transparent=TRANSPARENT_CALLS, max_steps=2000):
             out[o.key()] = o
             # parameters can also be reassigned; continue to look at defs
         ds = body.defs.get(l, [])
+        if def_filter is not None and len(ds) > 1:
+            ds = def_filter(l, ds)
         if not ds and not (1 <= l <= body.n_args):
             # only partially defined (aggregate built field by field) or never (ZST)
             pds = body.partial_defs.get(l, [])
